@@ -14,9 +14,9 @@ SPEC = {
 }
 
 TEXT = {
-    "technique": "complete enumeration of the padding arithmetic on the real routine + rapid over seeds / IAT modes / write sizes with wire-write-size oracle and reference decoder",
+    "technique": "complete enumeration of the padding arithmetic on the real routine + complete enumeration of all 1449 one-entry length tables for paranoid-mode termination + rapid over seeds / IAT modes / write sizes (up to 300000 bytes) with wire-write-size oracle and reference decoder",
     "engine": "enumeration + rapid + reference obfs4 peer (in-package harness in transports/obfs4)",
-    "level_text": ("Exploration with one completely enumerated sub-space. Thorough runs the real padBurst for every (tail 0..1447, target "
+    "level_text": ("Exploration with two completely enumerated sub-spaces (padding arithmetic; paranoid-mode termination over every one-entry length table, each reached from a stored seed). Thorough runs the real padBurst for every (tail 0..1447, target "
                    "0..1448) pair with three burst prefixes (6.3 M calls; quick: all targets x 101 boundary tails) and checks the amount "
                    "appended, its bound, and that every padding frame opens in the reference decoder. End-to-end cases drive real endpoints "
                    "over generated seeds (a quarter pre-searched to contain 0, others with tiny tables or 1448), all IAT modes and write "
